@@ -48,6 +48,10 @@ def _alts(ctx, names, *args, assume=None):
 
 
 def check(ctx):
+    # positional parameters keep their documented positions (a reordering survives every keyword call)
+    from ..sigrules import signatures as _signatures
+
+    _signatures(ctx, "R-SIG", classes=('skmatter.clustering.QuickShift',))
     P = ctx.P
     N = ctx.normalizer()
     cls = P.cls(CLS)
@@ -116,6 +120,7 @@ def check(ctx):
             X, w = arr("X", "N", "F"), arr("w", "N")
             lo = len(I.events)
             r = ctx.call_method(I, st, o, "fit", X, samples_weight=w)
+            ctx.no_shape_conflicts("Shape", f"construction and fit [{cfg}]", I, lo0, site, cfg)
             unb = [e for e in I.events[lo:] if e["kind"] == "maybe-unbound" or (e["kind"] == "unresolved-name")]
             ctx.ob("R-GUARD-IMPL", f"no possibly-unbound read (Gabriel graph consumed only where built) [{cfg}]", not unb, f"{[(e.get('name'), e.get('src')) for e in unb]}", site, cfg)
             want_gs = mode == "gabriel"
